@@ -4,7 +4,7 @@ import numpy as np
 from core import Result
 import proto, gen, implutil
 
-THEOREMS = ['C09_shape', 'C09_neg_involutive', 'C09_mirror_involutive', 'C09_amp_consistency', 'C09_monotonicity', 'C09_burst_fraction', 'C09_labels']
+THEOREMS = ['C09_shape', 'C09_neg_involutive', 'C09_mirror_involutive', 'C09_amp_consistency', 'C09_monotonicity', 'C09_burst_fraction', 'C09_labels', 'C09_mirror']
 RULE = ("generated signals of all families x option sets of C01 x both burst methods: compute_features(x, center_extrema='trough') against compute_features(-x, "
         "center_extrema='peak') (two implementation runs; negation is exact in float64): same number of cycles, same sample indices under the documented renaming, "
         "shape features related by the renaming / negation / 1-x map GENERATED into Lean from rename_extrema_df (applied by the driver), identical burst features and "
